@@ -65,6 +65,11 @@ def configs(tier, seed):
                  "subs": [{"aw": 2, "feat": ["err"], "sparse": False, "name": "hi", "addr": 0x80},
                           {"aw": 3, "feat": [], "sparse": False, "name": "lo", "addr": 0x20},
                           {"aw": 0, "feat": [], "sparse": False, "name": None, "addr": 0xfc}]})
+    # the smallest decoders: no address bits at all (one word), one and two subordinates of the minimum size
+    cfgs.append({"aw": 0, "dw": 8, "g": 8, "feat": [], "align": 0, "subs": [{"aw": 0, "feat": [], "sparse": False, "name": "only", "addr": None}]})
+    cfgs.append({"aw": 0, "dw": 32, "g": 8, "feat": ["err"], "align": 0, "subs": [{"aw": 0, "feat": ["err"], "sparse": False, "name": None, "addr": None}]})
+    cfgs.append({"aw": 1, "dw": 16, "g": 16, "feat": [], "align": 0, "subs": [{"aw": 0, "feat": [], "sparse": False, "name": "a", "addr": None},
+                                                                                 {"aw": 0, "feat": [], "sparse": False, "name": "b", "addr": None}]})
     # explicit addresses in descending order, the last one at address 0
     cfgs.append({"aw": 6, "dw": 8, "g": 8, "feat": [], "align": 0,
                  "subs": [{"aw": 3, "feat": [], "sparse": False, "name": "hi", "addr": 0x20}, {"aw": 2, "feat": [], "sparse": False, "name": None, "addr": 0x10},
